@@ -83,6 +83,9 @@ int main(int argc, char **argv) {
   if (!strcmp(argv[1], "sieve")) {
     return drv_sieve();
   }
+  if (!strcmp(argv[1], "pure")) {
+    return drv_pure();
+  }
   if (!strcmp(argv[1], "world")) {
     return drv_world();
   }
